@@ -1098,7 +1098,9 @@ func ruleGlobals(c *Ctx) {
 											escapes = append(escapes, "the memory it refers to is stored into another object at "+b.posOf(x)+" (later writes through that object — append within capacity, element stores — land in memory every call shares)")
 										}
 									case *ssa.Return:
-										if fn.Parent() == nil && token.IsExported(fn.Name()) {
+										// to the caller of the library, directly or through the unexported
+										// function an exported one hands the result of
+										if fn.Parent() == nil && (token.IsExported(fn.Name()) || b.resultReachesExported(fn, 0)) {
 											escapes = append(escapes, "the memory it refers to is returned to the caller at "+b.posOf(x))
 										}
 									case *ssa.Call:
@@ -1882,4 +1884,44 @@ func emptiedFirst(m ssa.Value, kind string) string {
 		}
 	}
 	return ""
+}
+
+// resultReachesExported: some caller of fn in the library returns what fn returned, and is
+// exported (or hands it on the same way).
+func (b *Body) resultReachesExported(fn *ssa.Function, depth int) bool {
+	if fn == nil || depth > 3 {
+		return false
+	}
+	found := false
+	for _, g := range b.srcFuncs(b.Lib) {
+		if found {
+			break
+		}
+		allInstrs(g, func(i ssa.Instruction) {
+			call, ok := i.(*ssa.Call)
+			if !ok || call.Call.StaticCallee() != fn || found {
+				return
+			}
+			returned := false
+			var vals []ssa.Value
+			vals = append(vals, call)
+			for _, ex := range extractOf(call, 0) {
+				vals = append(vals, ex)
+			}
+			for _, v := range vals {
+				if v.Referrers() == nil {
+					continue
+				}
+				for _, r := range *v.Referrers() {
+					if _, isRet := r.(*ssa.Return); isRet {
+						returned = true
+					}
+				}
+			}
+			if returned && (g.Parent() == nil && (token.IsExported(g.Name()) || b.resultReachesExported(g, depth+1))) {
+				found = true
+			}
+		})
+	}
+	return found
 }
